@@ -138,6 +138,7 @@ func (e *Env) consequent(x ast.Expr, pol bool) (res string) {
 	defer func() {
 		if r := recover(); r != nil {
 			if ee, ok := r.(*exprError); ok && strings.HasPrefix(ee.msg, "unknown identifier") {
+				e.t.note("contract clause: %s on some path (sub-formula treated as %v)", ee.msg, !pol)
 				if pol {
 					res = "false"
 				} else {
